@@ -48,24 +48,38 @@ class CnStub:
     Heat-capacity model of one phase with *arbitrary* Cn(T): the two integrals are uninterpreted
     functions of their limits.  Stateless (so the frame "models are not modified" is checkable by identity).
     """
-    def __init__(self, w, tag):
+    def __init__(self, w, tag, encoding='additive'):
         self._w = w
         self._tag = tag
+        self._enc = encoding
         self.calls = []
 
     def T_dependent_property_integral(self, Ta, Tb):
         self.calls.append(('I', Ta, Tb))
-        return self._w.fn(f'I.{self._tag}')(Ta, Tb)
+        return _integral(self._w, 'I', self._tag, self._enc, Ta, Tb)
 
     def T_dependent_property_integral_over_T(self, Ta, Tb):
         self.calls.append(('J', Ta, Tb))
-        return self._w.fn(f'J.{self._tag}')(Ta, Tb)
+        return _integral(self._w, 'J', self._tag, self._enc, Ta, Tb)
 
     def __call__(self, T, P=None):
         return self._w.fn(f'Cn.{self._tag}', positive=True)(T)
 
 
-def _assume_integrals_additive(w, tags, terms):
+def _integral(w, kind, tag, encoding, Ta, Tb):
+    """
+    The integral of an arbitrary function between Ta and Tb in one of two equivalent encodings:
+    'additive'        uninterpreted two-place function + ground additivity facts (_assume_integrals_additive);
+    'antiderivative'  F(Tb) - F(Ta) with F uninterpreted (every additive two-place function has this form
+                      with F(x) = I(x0, x), and conversely) — used as a second, independent encoding (thorough).
+    """
+    if encoding == 'antiderivative':
+        F = w.fn(f'F{kind}.{tag}')
+        return F(Tb) - F(Ta)
+    return w.fn(f'{kind}.{tag}')(Ta, Tb)
+
+
+def _assume_integrals_additive(w, tags, terms, encoding='additive'):
     """
     A-int (the contract of thermo's TDependentProperty integrals): I and J are integrals of a function
     of T, hence additive over adjacent intervals.  Ground instances over the temperature terms that occur.
@@ -75,9 +89,10 @@ def _assume_integrals_additive(w, tags, terms):
     tab = {}
     for tag in tags:
         for kind in ('I', 'J'):
-            f = w.fn(f'{kind}.{tag}')
-            v = {(i, j): f(terms[i], terms[j]) for i in range(n) for j in range(n)}
+            v = {(i, j): _integral(w, kind, tag, encoding, terms[i], terms[j]) for i in range(n) for j in range(n)}
             tab[kind, tag] = v
+            if encoding != 'additive':
+                continue
             for i in range(n):
                 w.assume(w.eq(v[i, i], 0.))
                 for j in range(n):
@@ -122,6 +137,8 @@ def energies_configs(tier):
     out = [{'name': f'phase_ref={r};refs=free', 'phase_ref': r, 'refs': 'free'} for r in PHASES]
     if tier == 'thorough':
         out += [{'name': f'phase_ref={r};refs=class', 'phase_ref': r, 'refs': 'class'} for r in PHASES]
+        out += [{'name': f'phase_ref={r};refs=free;integrals=antiderivative', 'phase_ref': r, 'refs': 'free',
+                 'integrals': 'antiderivative'} for r in PHASES]
     return out
 
 
@@ -162,8 +179,9 @@ def init_energies(w, cfg):
     T_ref, P_ref = rec.T_ref, rec.P_ref
     terms = [T_ref, Tm, Tb, T1, T2]
     iT_ref, iTm, iTb, iT1, iT2 = range(5)
-    integ = _assume_integrals_additive(w, PHASES, terms)
-    stubs = {p: CnStub(w, p) for p in PHASES}
+    enc = cfg.get('integrals', 'additive')
+    integ = _assume_integrals_additive(w, PHASES, terms, enc)
+    stubs = {p: CnStub(w, p, enc) for p in PHASES}
     Cn = PhaseTHandle('Cn', stubs['s'], stubs['l'], stubs['g'])
     Hvap = HvapStub(w)
     Hvap_Tb = Hvap(Tb)
@@ -215,6 +233,9 @@ def locked_configs(tier):
     out = [{'name': f'locked={p};phase_ref={p}', 'locked': p, 'phase_ref': p, 'refs': 'free'} for p in PHASES]
     out += [{'name': f'locked={p};phase_ref={r}', 'locked': p, 'phase_ref': r, 'refs': 'free'}
             for p in PHASES for r in PHASES if p != r]
+    if tier == 'thorough':
+        out += [dict(c, name=c['name'] + ';refs=class', refs='class') for c in out[:3]]
+        out += [dict(c, name=c['name'] + ';integrals=antiderivative', integrals='antiderivative') for c in out[:9]]
     return out
 
 
@@ -239,8 +260,9 @@ def init_energies_locked(w, cfg):
     P2 = w.real('P2', lo=0., lo_strict=True)
     T_ref, P_ref = rec.T_ref, rec.P_ref
     terms = [T_ref, Tm, Tb, T1, T2]
-    integ = _assume_integrals_additive(w, [phase], terms)
-    Cn = CnStub(w, phase)          # lock_phase replaced the phase handle by the model of the locked phase
+    enc = cfg.get('integrals', 'additive')
+    integ = _assume_integrals_additive(w, [phase], terms, enc)
+    Cn = CnStub(w, phase, enc)          # lock_phase replaced the phase handle by the model of the locked phase
     before = dict(vars(rec))
 
     tmo.Chemical._init_energies(rec, Cn, HvapStub(w), None, Hfus, Hfus / Tm, Tm, Tb, _ig_eos(), cfg['phase_ref'], S0)
@@ -416,7 +438,7 @@ def mixture_models(w, cfg):
     S_pure = 0.
     for k in sorted(stored):
         S_pure = S_pure + Smodel(phase, SparseVector.from_dict({k: vals[k]}, n), T, P)
-    w.ensure('entropy of mixing >= 0: S(mixed) >= sum S(pure inlets)', w.ge(S, S_pure), S=str(S)[:200], S_inlets=str(S_pure)[:200])
+    w.ensure('mixing-term => entropy of mixing >= 0: S(mixed) >= sum S(pure inlets)', w.ge(S, S_pure), S=str(S)[:200], S_inlets=str(S_pure)[:200])
     w.ensure('pure stream: S = n s (no mixing term)',
              w.And(*[w.eq(Smodel(phase, SparseVector.from_dict({k: vals[k]}, n), T, P), vals[k] * s[k]) for k in sorted(stored)]))
     # frame
